@@ -108,6 +108,21 @@ theorem C06_up_never_taints {view : View} (hnd : UniqueNames view) {dry : Bool} 
     (scaleUp o k dry cfg st g nowReal hint (nodesOf dry st0 .tainted view.nodes) want).j.countP (isTaintAdd view) = 0 :=
   scaleUp_noTaintAdd hnd o k cfg st g nowReal hint want
 
+/-- **C06 (the taint loop walks on).** A refused GET or UPDATE does not use up the rate: if the loop ends with fewer
+    nodes counted than it was asked for, it has fetched *every* candidate — a node it could not taint is replaced by the
+    next-oldest one, never silently counted. (The implementation-side oracle `C06.tooFewBad` is this statement.) -/
+theorem C06_taint_walks_on (o : Oracle) (nowSec : Int) (effect : String) (cs : List Node) (k need : Nat) (tr : List String)
+    (hlt : (taintLoop o false nowSec effect k cs need tr).val.count < need) :
+    ∀ c ∈ cs, c.name ∈ getNames (taintLoop o false nowSec effect k cs need tr).j := by
+  obtain ⟨m, hm, hnames, _, _, _, hfull⟩ := taintLoop_spec o nowSec effect cs k need tr
+  have hmlen : m = cs.length := by
+    by_cases h : m < cs.length
+    · have := hfull h; omega
+    · omega
+  intro c hc
+  rw [hnames, hmlen, List.take_length]
+  exact List.mem_map_of_mem hc
+
 /-- **C06 (above the scale-up threshold: nothing is removed by the scale-up itself).** No entry of `ScaleUp`'s journal
     terminates an instance of the cloud group or deletes a Node object: it is an untaint attempt or part of the cloud
     increase. (The force-removal reaper, which runs before the decision in every scan, is a separate sub-journal; the
